@@ -34,7 +34,7 @@ TECHNIQUE = ('Hypothesis-generated call histories on keys / HD keys / signed tra
              'secret-encoding scanner (ref/address, ref/bip32, ref/base58; independent of bitcoinlib) over view texts, '
              'object graphs, pickles, copies and raw database files; encrypted-database part in a subprocess')
 RULE = ('key case: a Key or HDKey built from a drawn secret/seed in a drawn import format (int, hex, bytes, WIF, seed, '
-        'xprv, key+chain, Key object; optionally a derived child), a drawn history of 0..6 calls on the private object '
+        'xprv, key+chain, Key object; optionally a derived child), a drawn history of 1..6 calls on the private object '
         '(wif, wif with foreign prefix, wif_key, wif_private, address, as_dict/as_json(include_private=True), info, '
         'sign, public_master*, child derivations, deepcopy, pickle round trip, encrypt), then every view: repr/str/'
         'as_dict/as_json/bytes/address object of the private object, and for public(), public_master(), '
@@ -58,7 +58,8 @@ ASSUMPTIONS = [
     'version of the pinned table with the true depth/fingerprint/index/chain, and any base58 token of 40..200 '
     'characters whose decoding contains the raw secret; an obfuscated leak (XOR, base64, encrypted with a known '
     'key) passes',
-    'secrets are drawn >= 2^128 so that the decimal/hex/raw needles cannot collide with public data by accident',
+    'secrets are hashes of drawn bytes shaped into uniform / 1..12 leading zero bytes / just below the group order (all '
+    '>= 2^128, >= 8 distinct byte values) so that no needle can collide with public data or file padding by accident',
     'scope of "public": text views (repr/str/as_dict/as_json/info and exports) of keys, addresses, transactions, '
     'wallets and wallet keys; object graph / pickle / copy only for objects the library hands out as public '
     'versions (Key.public, HDKey.public, public_master*, child_public, WalletKey.public().key()). Key.info() and '
@@ -127,8 +128,9 @@ class Secrets(object):
     def add(self, d, label, xk=None):
         from ref import base58
         if d not in self.ints:
-            if d < (1 << 128):
-                raise HarnessError('secret below 2^128 given to the scanner (%s)' % label)
+            if d < (1 << 128) or len(set(d.to_bytes(32, 'big'))) < 8:
+                raise HarnessError('low-entropy secret given to the scanner (%s): its encodings could match public '
+                                   'data or padding by accident' % label)
             self.ints[d] = label
             be = d.to_bytes(32, 'big')
             self.raw[be.lstrip(b'\x00')] = ('raw', label)
@@ -512,14 +514,29 @@ CACHE_FILLING = {'wif', 'wif_foreign', 'wif_key', 'as_dict_private', 'as_json_pr
                  'public_master', 'public_master_multisig', 'pickle', 'deepcopy'}
 
 
+def secret_strategy():
+    """Secrets with enough entropy that no needle can match public data or padding by accident: a hash of drawn
+    bytes, shaped into the classes uniform / leading zero bytes (>= 2^128) / just below the group order."""
+    from hypothesis import strategies as st
+    from ref import ec
+
+    def shape(t):
+        raw, klass, k = t
+        h = int.from_bytes(hashlib.sha256(b'c16 secret' + raw).digest(), 'big')
+        if klass == 0:
+            return h % (ec.N - 1) + 1
+        if klass == 1:
+            return (h >> (8 * k)) | (1 << (255 - 8 * k))       # exactly k leading zero bytes, k <= 12
+        return ec.N - 1 - (h % 1000)
+    return st.tuples(st.binary(min_size=1, max_size=8), st.sampled_from([0, 0, 1, 2]), st.integers(1, 12)).map(shape)
+
+
 def key_strategy(ctx):
     from hypothesis import strategies as st
     from ref import ec
     from ref.address import NETWORK_NAMES
     n = ec.N
-    secret = st.one_of(st.integers(1 << 255, n - 1), st.integers(1, 1000).map(lambda k: n - k),
-                       st.integers(1 << 128, 1 << 200), st.integers(1 << 200, n - 1),
-                       st.integers(1 << 128, (1 << 129)))
+    secret = secret_strategy()
     net = st.one_of(st.sampled_from(NETWORK_NAMES), st.just('bitcoin'), st.just(TESTNET))
     ops_plain = st.lists(st.sampled_from(KEY_OPS_COMMON + ['wif', 'wif', 'info', 'as_dict_private']), min_size=1,
                          max_size=6)
@@ -998,7 +1015,7 @@ def wallet_spec_strategy(ctx, max_ops=6):
         'witness_type': st.sampled_from(WITNESS_TYPES),
         'seeds': st.lists(st.binary(min_size=16, max_size=32).map(bytes.hex), min_size=3, max_size=3, unique=True),
         'private': st.sampled_from([[True, False, False], [True, True, False], [True, True, True]]),
-        'import_secret': st.integers(1 << 200, ec.N - 1).map(lambda d: '%x' % d),
+        'import_secret': secret_strategy().map(lambda d: '%x' % d),
         'history': st.lists(st.sampled_from(WALLET_OPS + ['get_key', 'utxos_update', 'send_own']), min_size=2,
                             max_size=max_ops),
         'rng': st.integers(0, 0xffffffff),
@@ -1512,17 +1529,22 @@ def prop_db(ctx):
     return f
 
 
+def _fixed_secret(tag):
+    from ref import ec
+    return '%x' % (int.from_bytes(hashlib.sha256(b'c16 fixed ' + tag).digest(), 'big') % (ec.N - 1) + 1)
+
+
 CONTROL_CASE = {
     'kind': 'db', 'mode': 'key',
     'specs': [
         {'wtype': 'hd', 'network': TESTNET, 'witness_type': 'segwit',
-         'seeds': ['aa' * 16, 'bb' * 16, 'cc' * 16], 'private': [True, False, False], 'import_secret': 'f' * 60,
+         'seeds': ['aa' * 16, 'bb' * 16, 'cc' * 16], 'private': [True, False, False], 'import_secret': _fixed_secret(b'control 1'),
          'history': ['get_key', 'utxos_update', 'send_own', 'import_key'], 'rng': 1},
         {'wtype': 'multisig', 'network': TESTNET, 'witness_type': 'legacy',
-         'seeds': ['dd' * 16, 'ee' * 16, 'ab' * 16], 'private': [True, True, False], 'import_secret': 'e' * 60,
+         'seeds': ['dd' * 16, 'ee' * 16, 'ab' * 16], 'private': [True, True, False], 'import_secret': _fixed_secret(b'control 2'),
          'history': ['get_key', 'utxos_update', 'send_own'], 'rng': 2},
         {'wtype': 'single', 'network': TESTNET, 'witness_type': 'legacy',
-         'seeds': ['cd' * 16, 'ef' * 16, 'ac' * 16], 'private': [True, False, False], 'import_secret': 'd' * 60,
+         'seeds': ['cd' * 16, 'ef' * 16, 'ac' * 16], 'private': [True, False, False], 'import_secret': _fixed_secret(b'control 3'),
          'history': ['get_key'], 'rng': 3},
     ]}
 
@@ -1548,6 +1570,18 @@ def db_control(ctx):
 # =================================================================================================
 
 def replay(ctx, case):
+    if 'probe' in case and 'kind' not in case:
+        # replay file written for a reproducing finding probe: re-run its minimal case with only that finding closed
+        fid = case['probe']
+        saved = ctx.findings
+        ctx.findings = dict((f, {}) for f in ALL_FINDINGS if f != fid)
+        try:
+            for pfid, pcase, _what in _probe_list():
+                if pfid == fid:
+                    replay(ctx, pcase)
+        finally:
+            ctx.findings = saved
+        return
     kind = case['kind']
     if kind == 'key':
         check_key(ctx, case)
@@ -1563,13 +1597,13 @@ def replay(ctx, case):
 
 PROBE_WALLET = {'kind': 'wallet', 'spec': {
     'wtype': 'hd', 'network': TESTNET, 'witness_type': 'segwit', 'seeds': ['01' * 16, '02' * 16, '03' * 16],
-    'private': [True, False, False], 'import_secret': 'f' * 60, 'history': ['get_key'], 'rng': 0}}
+    'private': [True, False, False], 'import_secret': _fixed_secret(b'probe wallet'), 'history': ['get_key'],
+    'rng': 0}}
 
 
-def probes(ctx):
-    saved = ctx.findings
-    plist = [
-        (F_WIF, {'kind': 'key', 'cls': 'Key', 'secret': 'c0ffee' + '12' * 29, 'fmt': 'int', 'network': 'bitcoin',
+def _probe_list():
+    return [
+        (F_WIF, {'kind': 'key', 'cls': 'Key', 'secret': _fixed_secret(b'probe key'), 'fmt': 'int', 'network': 'bitcoin',
                  'compressed': True, 'history': ['wif']},
          'k = Key(secret); k.wif(); k.public() keeps the private WIF in _wif (also in pickle.dumps / deepcopy of '
          'the public object); same for HDKey after wif_key()/info()/as_dict(include_private=True)'),
@@ -1579,6 +1613,11 @@ def probes(ctx):
         (F_DBKREPR, PROBE_WALLET,
          'repr() of the DbKey rows returned by Wallet.keys() prints the extended private key / private WIF'),
     ]
+
+
+def probes(ctx):
+    saved = ctx.findings
+    plist = _probe_list()
     try:
         for fid, case, what in plist:
             # run with every finding of this module treated as open and see whether the predicate of `fid` fires
@@ -1597,14 +1636,14 @@ def probes(ctx):
 def run(ctx):
     scanner_selftest()
     from hypothesis import strategies as st
-    ctx.run_given('key', key_strategy(ctx), prop_key(ctx), ctx.scale(100, 2500))
-    ctx.run_given('tx', tx_strategy(ctx), prop_tx(ctx), ctx.scale(20, 400))
+    ctx.run_given('key', key_strategy(ctx), prop_key(ctx), ctx.scale(100, 1800))
+    ctx.run_given('tx', tx_strategy(ctx), prop_tx(ctx), ctx.scale(20, 300))
     wcase = st.fixed_dictionaries({'kind': st.just('wallet'), 'spec': wallet_spec_strategy(ctx)})
-    ctx.run_given('wallet', wcase, prop_wallet(ctx), ctx.scale(3, 40))
+    ctx.run_given('wallet', wcase, prop_wallet(ctx), ctx.scale(3, 30), shrink=False)
     if ctx.shard == 0:
         db_control(ctx)
     if ctx.tier == 'quick':
         ndb = 1
     else:
         ndb = 6
-    ctx.run_given('db', db_strategy(ctx), prop_db(ctx), ndb)
+    ctx.run_given('db', db_strategy(ctx), prop_db(ctx), ndb, shrink=False)
